@@ -10,7 +10,10 @@ package ledger
 //	                           account C (funded / paid+rekeyed / closed), B's holding of asset X
 //	                           (opt-in+receive / receive / close-out), B's local state of
 //	                           app P (opt-in+write / write / close-out), box "k" of app P
-//	                           (create / overwrite / delete)
+//	                           (create with bytes V0 / toggle V0<->V1, so two modifications
+//	                           change it back / delete)
+//	            u=             rewrite the user resources with the bytes they already have
+//	                           (identical box_put, zero-amount asset transfer, same local value)
 //	            o+ / o~ / o-   create / modify / destroy the "owner" resources: a fresh asset Y
 //	                           (new id each time: params + creator entry + A's holding), a
 //	                           fresh app Q (params + global state + creator entry)
@@ -19,15 +22,16 @@ package ledger
 //	            flushMax       persist everything the configuration allows (latest-MaxAcctLookback)
 //	            reload         Ledger.reloadLedger()
 //
-// so every resource kind is created, modified, deleted and RE-created across flush
-// boundaries. Explorations (quick): the whole alphabet to depth 3; the "user" and the
-// "owner" halves (each with pay, flushMax, reload) to depth 5; thorough: halves + flush1 to
-// depth 6, whole alphabet to depth 5, halves to depth 7 (time-capped). Each for
-// MaxAcctLookback 0 and 2, LRU caches on / off, from two initial states (user+owner
-// resources absent / present-but-unflushed), and - with caches on, where lookups have side
-// effects - under two query policies (sweep after every op / after block ops only; see
-// c08SweepAlways...). "LRU on" uses the real cache code with capacity 256 (c08LRUSmall);
-// the upstream capacities (c08LRUReal, ~1 s per OpenLedger) are run to depth 2 (3 thorough).
+// so every resource kind is created, modified, rewritten unchanged, deleted and RE-created
+// across flush boundaries. Explorations (quick, in this order so that a time-capped run has
+// seen every op in every configuration first): the whole alphabet to depth 3; the "user" and
+// "owner" halves (each with pay, flushMax, reload) to depth 4; the user half without pay and
+// the owner half to depth 5. Thorough: whole alphabet to 4-5, halves + flush1 to 5, halves to
+// 6-7 (time-capped). Each for MaxAcctLookback 0 and 2, LRU caches on / off, from two initial
+// states (user+owner resources absent / present-but-unflushed), and - with caches on, where
+// lookups have side effects - under two query policies (sweep after every op / after block ops
+// only; see c08SweepAlways...). "LRU on" uses the real cache code with capacity 256
+// (c08LRUSmall); the upstream capacities (c08LRUReal, ~1 s per OpenLedger) run to depth 2 (3).
 //
 // The sweep: LookupAccount, LookupWithoutRewards, LookupAsset, LookupApplication,
 // GetCreatorForRound, LookupKv for every address / creatable id / box key ever mentioned
@@ -53,12 +57,19 @@ package ledger
 //  M4 lruaccts.go write(): stale pending write may overwrite a newer entry
 //     (needs: lookup, flush, NO lookup, next block)                          MISSED by the
 //     sweep-after-every-op policy alone, DETECTED once the sweep-after-blocks policy was added
+//  Independently seeded changes (/verif/seeded): C08-A compactKvDeltas loses the first OldData of a
+//  key created inside the batch - MISSED by the first version (every box write changed the
+//  bytes), DETECTED at depth 2 ([u= flushMax]) after u= and the V0<->V1 toggle were added;
+//  C08-B lruResources.write lets a stale row replace a "deleted" placeholder - DETECTED
+//  ([flushMax u- flushMax pay] under the sweep-after-blocks policy).
 //  (DESIGN's "drop the persistedData.Round == currentDbRound re-check" is equivalent in a
 //   sequential run - DB round and cached round never differ without a concurrent commit -
 //   and belongs to the E-SCHED part.)
 
 import (
 	"fmt"
+
+	"github.com/algorand/avm-abi/apps"
 	"os"
 	"strings"
 	"sync/atomic"
@@ -74,6 +85,7 @@ import (
 const (
 	c08OpUCreate = iota
 	c08OpUModify
+	c08OpUSame
 	c08OpUDelete
 	c08OpOCreate
 	c08OpOModify
@@ -85,7 +97,7 @@ const (
 	c08NumOps
 )
 
-var c08OpNames = []string{"u+", "u~", "u-", "o+", "o~", "o-", "pay", "flush1", "flushMax", "reload"}
+var c08OpNames = []string{"u+", "u~", "u=", "u-", "o+", "o~", "o-", "pay", "flush1", "flushMax", "reload"}
 
 type c08Variant struct {
 	cfg     c08Cfg
@@ -124,9 +136,10 @@ func c08Mask(ops ...int) uint {
 }
 
 var (
-	c08AlphaUser  = c08Mask(c08OpUCreate, c08OpUModify, c08OpUDelete, c08OpPay, c08OpFlushMax, c08OpReload)
-	c08AlphaOwner = c08Mask(c08OpOCreate, c08OpOModify, c08OpODelete, c08OpPay, c08OpFlushMax, c08OpReload)
-	c08AlphaFull  = uint(1<<c08NumOps - 1)
+	c08AlphaUser      = c08Mask(c08OpUCreate, c08OpUModify, c08OpUSame, c08OpUDelete, c08OpPay, c08OpFlushMax, c08OpReload)
+	c08AlphaUserNoPay = c08Mask(c08OpUCreate, c08OpUModify, c08OpUSame, c08OpUDelete, c08OpFlushMax, c08OpReload)
+	c08AlphaOwner     = c08Mask(c08OpOCreate, c08OpOModify, c08OpODelete, c08OpPay, c08OpFlushMax, c08OpReload)
+	c08AlphaFull      = uint(1<<c08NumOps - 1)
 )
 
 // c08Sys is one explored instance. Apply only advances a cheap shadow model (which ops
@@ -159,6 +172,11 @@ type c08Timers struct{ newNs, opNs, sweepNs, news, ops, sweeps, queries atomic.I
 
 const c08BoxName = "k"
 
+var (
+	c08BoxV0 = []byte("AAAAAAAA")
+	c08BoxV1 = []byte("BBBBBBBB")
+)
+
 func (s *c08Sys) userPresent() bool {
 	_, ok := s.h.Cur().acct[s.h.w.C]
 	return ok
@@ -167,6 +185,11 @@ func (s *c08Sys) userPresent() bool {
 func (s *c08Sys) blockTxns(op int) []*txntest.Txn {
 	w := s.h.w
 	v := c08Val(s.h.NextRound())
+	boxCur := s.h.Cur().kv[apps.MakeBoxKey(uint64(s.app), c08BoxName)]
+	boxNext := c08BoxV1
+	if string(boxCur) == string(c08BoxV1) {
+		boxNext = c08BoxV0
+	}
 	switch op {
 	case c08OpUCreate:
 		return []*txntest.Txn{
@@ -174,7 +197,7 @@ func (s *c08Sys) blockTxns(op int) []*txntest.Txn {
 			w.txAssetXfer(w.B, w.B, s.asset, 0),
 			w.txAssetXfer(w.A, w.B, s.asset, 7),
 			w.txAppCall(w.B, s.app, transactions.OptInOC, []byte("lset"), v),
-			w.txBoxPut(w.A, s.app, c08BoxName, v),
+			w.txBoxPut(w.A, s.app, c08BoxName, c08BoxV0), // a box is always (re-)created with the same bytes
 		}
 	case c08OpUModify:
 		rekeyTo := w.B // C is rekeyed to B, and back to itself the next time
@@ -185,8 +208,20 @@ func (s *c08Sys) blockTxns(op int) []*txntest.Txn {
 			w.txPay(w.A, w.C, 1_000_000),
 			w.txAssetXfer(w.A, w.B, s.asset, 1),
 			w.txAppCall(w.B, s.app, transactions.NoOpOC, []byte("lset"), v),
-			w.txBoxPut(w.A, s.app, c08BoxName, v),
+			w.txBoxPut(w.A, s.app, c08BoxName, boxNext), // V0 <-> V1: two modifications change it back
 			w.txRekey(w.C, rekeyTo),
+		}
+	case c08OpUSame:
+		// rewrite everything with the bytes it already has: identical box_put, zero-amount
+		// asset transfer, local state key set to its current value
+		local := []byte{}
+		if ls := s.h.Cur().res[c08ResKey{w.B, basics.CreatableIndex(s.app), basics.AppCreatable}].AppLocalState; ls != nil {
+			local = []byte(ls.KeyValue["l"].Bytes)
+		}
+		return []*txntest.Txn{
+			w.txBoxPut(w.A, s.app, c08BoxName, boxCur),
+			w.txAssetXfer(w.A, w.B, s.asset, 0),
+			w.txAppCall(w.B, s.app, transactions.NoOpOC, []byte("lset"), local),
 		}
 	case c08OpUDelete:
 		return []*txntest.Txn{
@@ -233,7 +268,7 @@ func (s *c08Sys) apply(op int) (bool, error) {
 		}
 		s.shUser = true
 		s.shLatest++
-	case c08OpUModify:
+	case c08OpUModify, c08OpUSame:
 		if !s.shUser {
 			return false, nil
 		}
@@ -497,30 +532,36 @@ func TestVerif_C08(t *testing.T) {
 	realLRU := []c08Cfg{real0, real2}
 	userOwner := c08AlphaUser | c08AlphaOwner
 	if !ve.Thorough() {
-		// interleaved full alphabet to depth 3; split alphabets (no flush1) to depth 5;
-		// upstream-sized LRU buffers (0.5-1 s per OpenLedger/reload) to depth 2
-		add(lru, "full", c08AlphaFull, 3, both, c08SweepAlways)
-		add(lru, "full", c08AlphaFull, 3, both, c08SweepBlocks)
-		add(off, "full", c08AlphaFull, 3, both, c08SweepEnd)
-		add(lru, "user", c08AlphaUser, 5, both, c08SweepBlocks)
-		add(lru, "owner", c08AlphaOwner, 5, both, c08SweepBlocks)
-		add(lru, "user", c08AlphaUser, 5, onlyPresent, c08SweepAlways)
-		add(lru, "owner", c08AlphaOwner, 5, onlyPresent, c08SweepAlways)
-		add(off, "user", c08AlphaUser, 5, onlyPresent, c08SweepEnd)
-		add(off, "owner", c08AlphaOwner, 5, onlyPresent, c08SweepEnd)
+		// Ordered so that a time-capped run has seen every op in every configuration at
+		// depth 3 before anything is deepened (transition counts: see evidence notes).
+		add(lru, "full", c08AlphaFull, 3, onlyPresent, c08SweepBlocks)
+		add(lru, "full", c08AlphaFull, 3, onlyPresent, c08SweepAlways)
+		add(off, "full", c08AlphaFull, 3, onlyPresent, c08SweepEnd)
+		add(lru, "full", c08AlphaFull, 3, []bool{false}, c08SweepBlocks)
+		add(lru, "user", c08AlphaUser, 4, both, c08SweepBlocks)
+		add(lru, "owner", c08AlphaOwner, 4, both, c08SweepBlocks)
+		add(lru, "user-nopay", c08AlphaUserNoPay, 5, both, c08SweepBlocks)
+		add(lru, "owner", c08AlphaOwner, 5, onlyPresent, c08SweepBlocks)
+		add(lru, "user", c08AlphaUser, 4, onlyPresent, c08SweepAlways)
+		add(lru, "owner", c08AlphaOwner, 4, onlyPresent, c08SweepAlways)
+		add(off, "user", c08AlphaUser, 4, onlyPresent, c08SweepEnd)
+		add(off, "owner", c08AlphaOwner, 4, onlyPresent, c08SweepEnd)
 		add(realLRU, "user+owner", userOwner, 2, onlyPresent, c08SweepAlways)
 	} else {
-		add(lru, "user", c08AlphaUser|1<<c08OpFlush1, 6, both, c08SweepBlocks)
-		add(lru, "owner", c08AlphaOwner|1<<c08OpFlush1, 6, both, c08SweepBlocks)
-		add(lru, "user", c08AlphaUser|1<<c08OpFlush1, 6, both, c08SweepAlways)
-		add(lru, "owner", c08AlphaOwner|1<<c08OpFlush1, 6, both, c08SweepAlways)
-		add(off, "user", c08AlphaUser|1<<c08OpFlush1, 6, both, c08SweepEnd)
-		add(off, "owner", c08AlphaOwner|1<<c08OpFlush1, 6, both, c08SweepEnd)
+		add(lru, "full", c08AlphaFull, 4, both, c08SweepBlocks)
+		add(lru, "full", c08AlphaFull, 4, both, c08SweepAlways)
+		add(off, "full", c08AlphaFull, 4, both, c08SweepEnd)
+		add(lru, "user", c08AlphaUser|1<<c08OpFlush1, 5, both, c08SweepBlocks)
+		add(lru, "owner", c08AlphaOwner|1<<c08OpFlush1, 5, both, c08SweepBlocks)
+		add(lru, "user", c08AlphaUser|1<<c08OpFlush1, 5, both, c08SweepAlways)
+		add(lru, "owner", c08AlphaOwner|1<<c08OpFlush1, 5, both, c08SweepAlways)
+		add(off, "user", c08AlphaUser|1<<c08OpFlush1, 5, both, c08SweepEnd)
+		add(off, "owner", c08AlphaOwner|1<<c08OpFlush1, 5, both, c08SweepEnd)
 		add(realLRU, "user+owner", userOwner, 3, onlyPresent, c08SweepAlways)
+		add(lru, "user-nopay", c08AlphaUserNoPay, 6, both, c08SweepBlocks)
+		add(lru, "owner", c08AlphaOwner, 6, both, c08SweepBlocks)
 		add(lru, "full", c08AlphaFull, 5, both, c08SweepBlocks)
-		add(lru, "full", c08AlphaFull, 5, both, c08SweepAlways)
-		add(off, "full", c08AlphaFull, 5, both, c08SweepEnd)
-		add(lru, "user", c08AlphaUser, 7, onlyPresent, c08SweepBlocks)
+		add(lru, "user-nopay", c08AlphaUserNoPay, 7, onlyPresent, c08SweepBlocks)
 		add(lru, "owner", c08AlphaOwner, 7, onlyPresent, c08SweepBlocks)
 	}
 	maxDepth := 0
